@@ -258,6 +258,10 @@ type Options struct {
 	Trace    bool
 	// Race: check the memory accesses instrumented by vxform -race against happens-before (vrt/race.go).
 	Race bool
+	// SyncTimers: Go 1.23 timer semantics (what a main module with go >= 1.23 gets): Reset and Stop discard a tick
+	// of that timer which is still sitting in its channel. The default is the older behaviour, which the module's
+	// own `go 1.22` directive selects: the stale tick stays and a later receive returns at once.
+	SyncTimers bool
 }
 
 // Result of one execution.
